@@ -185,57 +185,78 @@ def skipDigits (s : Bytes) (j : Nat) : Option Nat :=
 /-- nearest millisecond of `x / 10^n` seconds (half up) -/
 def fracMs (x : Int) (n : Nat) : Int := (2 * x * 1000 + 10 ^ n) / (2 * 10 ^ n)
 
+/-- is the string in extended format?  `t.length() >= 10 && p[4] == '-' && p[7] == '-'` (short-circuit reads) -/
+def isoExt (t : Bytes) : Option Bool :=
+  if t.length ≥ 10 then (rd t 4).bind fun c4 => if c4 = 45 then (rd t 7).bind fun c7 => some (c7 == 45) else some false
+  else some false
+
+/-- index of the time part: 9 (`basic && length > 12 && t[8] == 'T'`), 11 (`!basic && length > 15 && t[10] == 'T'`), else 0 = return -/
+def isoTimeIndex (t : Bytes) (basic : Bool) : Option Nat :=
+  if basic && t.length > 12 then (rd t 8).bind fun c => some (if c = 84 then 9 else 0)
+  else if !basic && t.length > 15 then (rd t 10).bind fun c => some (if c = 84 then 11 else 0)
+  else some 0
+
+/-- `hh:mm[:ss]` / `hhmm[ss]` at index `p`: `some (h, mi, s, index after the clock)`; inner `none`: missing colon -/
+def parseClock (t : Bytes) (basic : Bool) (p : Nat) : Option (Option (Int × Int × Int × Nat)) :=
+  let n := t.length
+  (if !basic then (rd t (p + 2)).bind fun c => some (c == 58) else some true).bind fun colonOk =>
+  if !colonOk then some none else
+  (if !basic then (if n - p ≥ 8 then (rd t (p + 5)).bind fun c => some (c == 58) else some false)
+   else (if n - p ≥ 6 then (rd t (p + 4)).bind fun c => some (isDigit c) else some false)).bind fun hassecs =>
+  (parseInt t p 2).bind fun h =>
+  (parseInt t (p + (if basic then 2 else 3)) 2).bind fun mi =>
+  (parseInt t (p + (if basic then 4 else 6)) (if hassecs then 2 else 0)).bind fun s =>
+  some (some (h, mi, s, p + (if hassecs then (if basic then 6 else 8) else (if basic then 4 else 5))))
+
+/-- optional fraction `.ddd…` at index `p1`: (digits as int, number of digits, index after the fraction) -/
+def parseFrac (t : Bytes) (p1 : Nat) : Option (Int × Nat × Nat) :=
+  (rd t p1).bind fun c0 =>
+  if c0 = 46 then
+    (skipDigits t (p1 + 1)).bind fun e =>
+    (parseInt t (p1 + 1) (e - (p1 + 1))).bind fun x => some (x, e - (p1 + 1), e)
+  else some (0, 0, p1)
+
+/-- zone designator at index `p2`: `Z`, `±hh`, `±hhmm`, `±hh:mm` (which must end the string), or the terminator
+(local time, offset 0 under TZ=UTC).  Result: minutes to add to the instant; inner `none` = invalid Date -/
+def parseZone (t : Bytes) (p2 : Nat) : Option (Option Int) :=
+  (rd t p2).bind fun z =>
+  if z = 90 then some (some 0)
+  else if z = 43 ∨ z = 45 then
+    let k := t.length - p2
+    (if k ≥ 3 then (parseInt t (p2 + 1) 2).bind fun v => some (v * 60) else some 0).bind fun tz0 =>
+    (if k = 6 then (rd t (p2 + 3)).bind fun c => some (c == 58) else some false).bind fun colon6 =>
+    (if colon6 then (parseInt t (p2 + 4) 2).bind fun v => some (tz0 + v)
+     else if k = 5 then (parseInt t (p2 + 3) 2).bind fun v => some (tz0 + v)
+     else if k ≠ 3 then some (-1000000)
+     else some tz0).bind fun (tz : Int) =>
+    if tz < -100000 then some none
+    else some (some (if z = 43 then -tz else tz))
+  else if z = 0 then some (some 0)
+  else some none
+
 /-- the ISO 8601 branch (basic and extended, `Z`, numeric offsets, fraction) -/
 def parseIso (t : Bytes) : ParseResult :=
   let n := t.length
-  (if n ≥ 10 then (rd t 4).bind fun c4 => if c4 = 45 then (rd t 7).bind fun c7 => some (c7 == 45) else some false
-   else some false).bind fun ext =>
+  (isoExt t).bind fun ext =>
   if !ext && n < 8 then invalid else
   let basic := !ext
   (parseInt t 0 4).bind fun y =>
   (parseInt t (if basic then 4 else 5) 2).bind fun m =>
   (parseInt t (if basic then 6 else 8) 2).bind fun d =>
-  (if basic && n > 12 then (rd t 8).bind fun c => some (if c = 84 then 9 else 0)
-   else if !basic && n > 15 then (rd t 10).bind fun c => some (if c = 84 then 11 else 0)
-   else some 0).bind fun (iTime : Nat) =>
+  (isoTimeIndex t basic).bind fun iTime =>
   if iTime = 0 then invalid else
   if y < 0 ∨ m < 0 ∨ d < 0 then invalid else
-  let p := iTime
   if n - iTime ≥ (if basic then 4 else 5) then
-    (if !basic then (rd t (p + 2)).bind fun c => some (c == 58) else some true).bind fun colonOk =>
-    if !colonOk then invalid else
-    (if !basic then (if n - iTime ≥ 8 then (rd t (p + 5)).bind fun c => some (c == 58) else some false)
-     else (if n - iTime ≥ 6 then (rd t (p + 4)).bind fun c => some (isDigit c) else some false)).bind fun hassecs =>
-    (parseInt t p 2).bind fun h =>
-    (parseInt t (p + (if basic then 2 else 3)) 2).bind fun mi =>
-    (parseInt t (p + (if basic then 4 else 6)) (if hassecs then 2 else 0)).bind fun s =>
-    let p1 := p + (if hassecs then (if basic then 6 else 8) else (if basic then 4 else 5))
-    (rd t p1).bind fun c0 =>
-    (if c0 = 46 then
-        (skipDigits t (p1 + 1)).bind fun e =>
-        (parseInt t (p1 + 1) (e - (p1 + 1))).bind fun x => some (x, e - (p1 + 1), e)
-     else some (0, 0, p1)).bind fun (fr : Int × Nat × Nat) =>
-    let x := fr.1
-    let nd := fr.2.1
-    let p2 := fr.2.2
-    if h < 0 ∨ h > 23 ∨ mi < 0 ∨ mi > 59 ∨ s < 0 ∨ s > 59 ∨ x < 0 then invalid else
-    (rd t p2).bind fun z =>
-    (if z = 90 then some (some 0)
-     else if z = 43 ∨ z = 45 then
-       let k := n - p2
-       (if k ≥ 3 then (parseInt t (p2 + 1) 2).bind fun v => some (v * 60) else some 0).bind fun tz0 =>
-       (if k = 6 then (rd t (p2 + 3)).bind fun c => some (c == 58) else some false).bind fun colon6 =>
-       (if colon6 then (parseInt t (p2 + 4) 2).bind fun v => some (tz0 + v)
-        else if k = 5 then (parseInt t (p2 + 3) 2).bind fun v => some (tz0 + v)
-        else if k ≠ 3 then some (-1000000)
-        else some tz0).bind fun (tz : Int) =>
-       if tz < -100000 then some none
-       else some (some (if z = 43 then -tz else tz))
-     else if z = 0 then some (some 0)
-     else some none).bind fun (tzr : Option Int) =>
-    match tzr with
+    (parseClock t basic iTime).bind fun ck =>
+    match ck with
     | none => invalid
-    | some tz => some ((construct y m d h mi s).map fun t0 => t0 + tz * 60000 + fracMs x nd)
+    | some (h, mi, s, p1) =>
+      (parseFrac t p1).bind fun fr =>
+      if h < 0 ∨ h > 23 ∨ mi < 0 ∨ mi > 59 ∨ s < 0 ∨ s > 59 ∨ fr.1 < 0 then invalid else
+      (parseZone t fr.2.2).bind fun tzr =>
+      match tzr with
+      | none => invalid
+      | some tz => some ((construct y m d h mi s).map fun t0 => t0 + tz * 60000 + fracMs fr.1 fr.2.1)
   else
     some (construct y m d 0 0 0)
 
